@@ -1219,8 +1219,16 @@ class Symbolic(
         value = value.clone()
 
     if isinstance(value, TopologyAware):
+      old_path = getattr(value, 'sym_path', None)
       value.sym_setpath(utils.KeyPath(key, self.sym_path))
-      value.sym_setparent(self._sym_parent_for_children())
+      try:
+        value.sym_setparent(self._sym_parent_for_children())
+      except BaseException:
+        # The value refused its new parent (e.g. a `pg.Ref` to an ancestor): it
+        # is not stored, so it does not keep the path of the refused place.
+        if old_path is not None:
+          value.sym_setpath(old_path)
+        raise
     return value
 
   def _sym_parent_for_children(self) -> Optional['Symbolic']:
